@@ -48,14 +48,15 @@ def variants(case, idx, rnd, n):
             cls = "BasebandSignal"
         forms = ["float", "list", "quantity", "float"] + (["int"] if whole else [])
         out.append({"kind": kind, "cls": cls, "form": rnd.choice(forms), "dask": rnd.random() < 0.2,
-                    "rate": rnd.randrange(len(sl.RATES)), "start": rnd.random() < 0.6, "hist": rnd.randrange(3)})
+                    "rate": rnd.randrange(len(sl.RATES)), "start": rnd.random() < 0.6, "hist": rnd.randrange(3),
+                    "negzero": rnd.random() < 0.35})
     return out
 
 
 def shift_arg(case, var, z):
     """the `shift` argument in the requested form; None if the form cannot carry
     the lattice value exactly enough (then the caller falls back to floats)."""
-    S = np.array(case["S"], dtype=np.float64) / 4
+    S = sl.lattice(case["S"], var.get("negzero", False))      # zeros as -0.0 in some concretisations
     shsh = tuple(case["shsh"])
     arr = S.reshape(shsh) if shsh else float(S[0])
     form = var["form"]
@@ -159,6 +160,14 @@ def replay_case(tab, case, var):
             out.append(("time_shift:crop:start-time", "%s start_time appeared from nowhere" % what))
     # ---- same object, later call: after a sanctioned in-place change of the data the result is that of
     #      the same call on a fresh signal holding the new data
+    # ---- the same argument objects passed again denote the same request (judged against the first,
+    #      itself judged against the expectation written down before any call)
+    try:
+        yr = materialise(pb.time_shift(z, arg)).reshape(N, -1)
+        if not np.array_equal(yr, a):
+            out.append(("time_shift:repeat-call-differs", "%s called again with the same objects returns another result" % what))
+    except Exception as e:  # noqa
+        out.append(("time_shift:raised", "%s called again with the same objects raised %r" % (what, e)))
     if not var["dask"] and not case["early"]:
         g = sl.inplace_update(z, var.get("hist", 0), var["kind"])
         if g is not None:
@@ -176,10 +185,10 @@ def replay_case(tab, case, var):
 
 
 def run_replay(chk, tab, cases, rnd, limit, nvar):
+    usable = [c for c in cases if c["N"] <= 8 and all(tab.has(c["N"], q) for q in c["qe"])]
+    run_sessions(chk, tab, sl.sessions(usable), rnd, max(60, limit // 12), nvar)
     by = {}
-    for c in cases:
-        if c["N"] > 8 or not all(tab.has(c["N"], q) for q in c["qe"]):
-            continue
+    for c in sl.first_calls(usable):
         by.setdefault((tuple(c["ssh"]), tuple(c["shsh"])), []).append(c)
     per = max(1, limit // max(1, len(by)))
     chosen = []
@@ -203,6 +212,32 @@ def run_replay(chk, tab, cases, rnd, limit, nvar):
     chk.notes["replayed_shift_forms"] = forms
     chk.notes["replayed_shape_pairs"] = shapes
     chk.notes["generated_cases"] = len(cases)
+
+
+def run_sessions(chk, tab, pairs, rnd, limit, nvar):
+    """histories of two calls in one process: the same values on two broadcast layouts, like signals
+    (same length, dtype, class, back end); every call is judged on its own layout"""
+    # layouts that differ in the padded shape AND carry at least two different values tell the calls apart
+    pairs = [p for p in pairs if len(set(p[0]["S"])) > 1] or pairs
+    if len(pairs) > limit:
+        pairs = rnd.sample(pairs, limit)
+    n = 0
+    for i, (first, second) in enumerate(pairs):
+        for var in variants(second, i, rnd, nvar):
+            if var["form"] == "int":
+                var["form"] = "float"
+            table = sl.merge_tables(sub_table(tab, first), sub_table(tab, second))
+            for step, case in enumerate((first, second)):
+                res, _ = replay_case(tab, case, var)
+                n += 1
+                for key, desc in res:
+                    chk.violation(key + (":after-other-layout" if step else ""),
+                                  desc + (" [second call of a session; first call: shift shape %r]" % (tuple(first["shsh"]),) if step else ""),
+                                  {"kind": "session", "cases": [first, second], "var": var, "table": table})
+    chk.validated += n
+    chk.notes["session_calls"] = n
+    if pairs:
+        chk.sample({"session": [{k: c[k] for k in ("N", "ssh", "shsh", "S")} for c in pairs[0]]})
 
 
 def sub_table(tab, case):
@@ -260,6 +295,10 @@ def probe_params(rnd, thorough):
             if 0 < abs(s) <= 1e-6:
                 s = 0.0
             S.append(float(s))
+        if rnd.random() < 0.3:
+            S = (-np.array(S, dtype=np.float64)).tolist()        # produced by negation: zeros become -0.0
+        if style in ("mixed", "zero") and rnd.random() < 0.5:
+            S[rnd.randrange(len(S))] = rnd.choice([-0.0, 0.0, 5e-324, -5e-324, 2.2250738585072014e-308])   # signed zeros, subnormals
         nel = int(np.prod(ssh)) if ssh else 1
         kind = ["c16", "f8", "c8", "f4"][i % 4]
         lo, hi = -(N // 2), (N - 1) // 2
@@ -271,7 +310,8 @@ def probe_params(rnd, thorough):
             ks = [rnd.randint(lo, hi) for _ in range(nel)]
         out.append({"N": N, "ssh": list(ssh), "shsh": list(shsh), "S": S, "kind": kind, "ks": ks,
                     "dask": rnd.random() < 0.15, "quantity": rnd.random() < 0.25,
-                    "rate": rnd.randrange(len(sl.RATES)), "baseband": kind[0] == "c" and len(ssh) >= 1 and rnd.random() < 0.3})
+                    "rate": rnd.randrange(len(sl.RATES)), "baseband": kind[0] == "c" and len(ssh) >= 1 and rnd.random() < 0.3,
+                    "again": i % 2 == 1})
     return out
 
 
@@ -296,6 +336,8 @@ def drive_probe(p, eid):
         seen = np.asarray(arr, dtype=np.float64).ravel()
     m0 = sl.meta_of(z)
     y = pb.time_shift(z, arg)
+    if p.get("again"):
+        y = pb.time_shift(z, arg)       # the same objects passed again: the observed call is the second one
     meta_changed = sl.meta_diff(m0, sl.meta_of(y))
     if y.shape != z.shape:
         raise MalformedResult("time_shift changed the shape %r -> %r" % (z.shape, y.shape))
@@ -331,7 +373,7 @@ def run_trace(chk, rnd, thorough):
         if meta_changed:
             chk.violation("time_shift:metadata", "probe %r changed %s" % (p, meta_changed), {"kind": "probe", "p": p})
         events.append(ev)
-    rejected, n = sl.validate("Trace_Shift", events, chk=chk, name="tshift", batch=max(30, len(events) // 6 + 1), par=6)
+    rejected, n = sl.validate("Trace_Shift", events, chk=chk, name="tshift", batch=max(30, len(events) // 4 + 1), par=4)
     chk.validated += n
     for ev, failed in rejected:
         p = params[ev["id"]]
@@ -368,6 +410,8 @@ def run(chk):
         "neg": lambda: tlc.run("MC_TimeShift", "Neg_TimeShift_pinned.cfg", workers=1, timeout=900, heap="1g"),
         "cases": lambda: sl.gen("Gen_TimeShift", "Gen_TimeShift_%s.cfg" % t, workers=2),
         "table": lambda: sl.gen("Gen_Delay", "Gen_Delay_time_%s.cfg" % t, workers=5, timeout=3000),
+        # the large-N probes are driven and validated side by side with the generation jobs
+        "trace": lambda: run_trace(chk, random.Random(chk.seed + 104729), thorough),
     })
     chk.mc_must_hold("MC_TimeShift_" + t, res["mc"])
     chk.exhaustive = res["mc"].ok
@@ -381,8 +425,7 @@ def run(chk):
         if not res[k][0].ok:
             chk.machinery_errors.append("generation %s failed: %s" % (k, res[k][0].stdout[-2000:]))
     tab = sl.Table(res["table"][1])
-    run_replay(chk, tab, res["cases"][1], rnd, 40000 if thorough else 3500, 2 if thorough else 1)
-    run_trace(chk, rnd, thorough)
+    run_replay(chk, tab, res["cases"][1], rnd, 40000 if thorough else 3000, 2 if thorough else 1)
     tiny_shift_note(chk)
     chk.assumptions += [
         "TLC explores TimeShift exhaustively only within the constants of the MC configuration",
@@ -396,7 +439,13 @@ def run(chk):
 def replay(doc):
     c = doc["case"]
     bad = []
-    if c["kind"] == "gen":
+    if c["kind"] == "session":
+        tab = JsonTable(c["cases"][0]["N"], c["table"])
+        bad = []
+        for step, case in enumerate(c["cases"]):
+            res, _ = replay_case(tab, case, c["var"])
+            bad += [(k + (":after-other-layout" if step else ""), d) for k, d in res]
+    elif c["kind"] == "gen":
         tab = JsonTable(c["case"]["N"], c["table"])
         bad, _ = replay_case(tab, c["case"], c["var"])
     else:
